@@ -18,7 +18,7 @@ Record loop_env := mkLoop { l_start : nat; l_end : nat; l_depth : nat }.
 
 (* the world outside the interpreter: file system and stdin, as far as the built-ins can see them *)
 Inductive fsnode := FsFile (content : text) | FsDir | FsBinary.    (* FsBinary: file whose content is not UTF-8 *)
-Record world := mkWorld { w_fs : list (text * fsnode); w_stdin : list text }.
+Record world := mkWorld { w_fs : list (text * fsnode); w_stdin : list text; w_cwd : text }.
 
 Record machine := mkM {
   m_pc : nat; m_scopes : list scope; m_loops : list loop_env; m_loop_base : nat;
@@ -262,7 +262,7 @@ Definition fs_parent_ok (w : world) (p : text) : bool :=
   | [] => true
   | d => match fs_get w d with Some FsDir => true | _ => false end
   end.
-Definition fs_set (w : world) (p : text) (n : fsnode) : world := mkWorld (alist_set p n (w_fs w)) (w_stdin w).
+Definition fs_set (w : world) (p : text) (n : fsnode) : world := mkWorld (alist_set p n (w_fs w)) (w_stdin w) (w_cwd w).
 Fixpoint alist_remove {A} (p : text -> bool) (l : list (text * A)) : list (text * A) :=
   match l with [] => [] | (k, v) :: r => if p k then alist_remove p r else (k, v) :: alist_remove p r end.
 Definition is_under (d : text) (p : text) : bool := starts_with p (d ++ [47%N]).
@@ -286,6 +286,11 @@ Definition dir_entries (w : world) (d : text) : list text :=
                              let rest := skipn (S (length d)) k in
                              if existsb (N.eqb 47) rest then [] else [rest]
                            else []) (w_fs w).
+
+(* an absolute path below the working directory names the same file as the relative one *)
+Definition fs_norm (w : world) (p : text) : text :=
+  let pre := w_cwd w ++ [47%N] in
+  if starts_with p pre then skipn (length pre) p else p.
 
 (** ** Evaluation *)
 Section Run.
@@ -486,7 +491,7 @@ Definition call_builtin (name : text) (args : list value) (m : machine) : outcom
   else if is 5 then (* _রিড-লাইন *)
     match args with
     | [] => match w_stdin w with
-            | l :: r => Ok (VStr (trim_end l), set_world m (mkWorld (w_fs w) r))
+            | l :: r => Ok (VStr (trim_end l), set_world m (mkWorld (w_fs w) r (w_cwd w)))
             | [] => Ok (VStr [], m)
             end
     | _ => rt_err m
@@ -519,12 +524,12 @@ Definition call_builtin (name : text) (args : list value) (m : machine) : outcom
     end
   else if is 10 then (* _রিড-ফাইল *)
     match args with
-    | [VStr p] => match fs_get w p with Some (FsFile c) => Ok (VStr c, m) | _ => rt_err m end
+    | [VStr p0] => let p := fs_norm w p0 in match fs_get w p with Some (FsFile c) => Ok (VStr c, m) | _ => rt_err m end
     | _ => rt_err m
     end
   else if is 11 then (* _রাইট-ফাইল *)
     match args with
-    | [VStr p; VStr c] =>
+    | [VStr p0; VStr c] => let p := fs_norm w p0 in
         match fs_get w p with
         | Some FsDir => rt_err m
         | _ => if fs_parent_ok w p && negb (text_eqb p []) then Ok (VBool true, set_world m (fs_set w p (FsFile c))) else rt_err m
@@ -533,16 +538,16 @@ Definition call_builtin (name : text) (args : list value) (m : machine) : outcom
     end
   else if is 12 then (* _ডিলিট-ফাইল *)
     match args with
-    | [VStr p] =>
+    | [VStr p0] => let p := fs_norm w p0 in
         match fs_get w p with
-        | Some (FsFile _) | Some FsBinary => Ok (VBool true, set_world m (mkWorld (alist_remove (text_eqb p) (w_fs w)) (w_stdin w)))
+        | Some (FsFile _) | Some FsBinary => Ok (VBool true, set_world m (mkWorld (alist_remove (text_eqb p) (w_fs w)) (w_stdin w) (w_cwd w)))
         | _ => rt_err m
         end
     | _ => rt_err m
     end
   else if is 13 then (* _নতুন-ডাইরেক্টরি *)
     match args with
-    | [VStr p] => match p with
+    | [VStr p0] => let p := fs_norm w p0 in match p with
                   | [] => Ok (VBool true, m)
                   | _ => match mkdirs w (path_prefixes [] p) with
                          | Some w' => Ok (VBool true, set_world m w')
@@ -553,7 +558,7 @@ Definition call_builtin (name : text) (args : list value) (m : machine) : outcom
     end
   else if is 14 then (* _রিড-ডাইরেক্টরি *)
     match args with
-    | [VStr p] =>
+    | [VStr p0] => let p := fs_norm w p0 in
         match fs_get w p with
         | Some FsDir =>
             let '(a, h') := alloc_list h (map VStr (dir_entries w p)) in Ok (VList a, set_heap m h')
@@ -563,16 +568,16 @@ Definition call_builtin (name : text) (args : list value) (m : machine) : outcom
     end
   else if is 15 then (* _ডিলিট-ডাইরেক্টরি *)
     match args with
-    | [VStr p] =>
+    | [VStr p0] => let p := fs_norm w p0 in
         match fs_get w p with
-        | Some FsDir => Ok (VBool true, set_world m (mkWorld (alist_remove (fun k => text_eqb k p || is_under p k) (w_fs w)) (w_stdin w)))
+        | Some FsDir => Ok (VBool true, set_world m (mkWorld (alist_remove (fun k => text_eqb k p || is_under p k) (w_fs w)) (w_stdin w) (w_cwd w)))
         | _ => rt_err m
         end
     | _ => rt_err m
     end
   else if is 16 then (* _ফাইল-নাকি-ডাইরেক্টরি *)
     match args with
-    | [VStr p] =>
+    | [VStr p0] => let p := fs_norm w p0 in
         match fs_get w p with
         | Some FsDir => Ok (VStr text_dir, m)
         | Some _ => Ok (VStr text_file, m)
